@@ -14,10 +14,11 @@
 
 using namespace romea::core;
 
-static void emit(const LambertConverter::ProjectionParameters & pp, double e, double lat0, double lon0,
+// conv is built by the caller through the PUBLIC constructor a user calls (secant/tangent parameters + ellipsoid);
+// pp (from the static helper) is only printed, to compare n, c, xs, ys with the model
+static void emit(const LambertConverter & conv, const LambertConverter::ProjectionParameters & pp, double lat0, double lon0,
   double lat, double lon, double d)
 {
-  LambertConverter conv(pp, e);
   std::vector<double> o = {pp.n, pp.c, pp.xs, pp.ys};
   Eigen::Vector2d p = conv.toLambert(WGS84Coordinates{lat, lon});
   std::cout << geoA::join(o) << " " << geoA::join({p.x(), p.y()}) << " ";
@@ -51,11 +52,11 @@ int main()
     if (t[0] == "sec" && f.size() == 11) {
       EarthEllipsoid el(f[0], f[1]);
       LambertConverter::SecantProjectionParameters sp{f[2], f[3], f[4], f[5], f[6], f[7]};
-      emit(LambertConverter::computeProjectionParameters(sp, el), el.e, f[3], f[2], f[8], f[9], f[10]);
+      emit(LambertConverter(sp, el), LambertConverter::computeProjectionParameters(sp, el), f[3], f[2], f[8], f[9], f[10]);
     } else if (t[0] == "tan" && f.size() == 10) {
       EarthEllipsoid el(f[0], f[1]);
       LambertConverter::TangentProjectionParameters tp{f[2], f[3], f[4], f[5], f[6]};
-      emit(LambertConverter::computeProjectionParameters(tp, el), el.e, f[2], f[3], f[7], f[8], f[9]);
+      emit(LambertConverter(tp, el), LambertConverter::computeProjectionParameters(tp, el), f[2], f[3], f[7], f[8], f[9]);
     } else if (t[0] == "iso" && f.size() == 2) {
       double L = LambertConverter::computeIsometricLatitude(f[0], f[1]);
       double back = 0;
